@@ -2,11 +2,11 @@ package main
 
 import (
 	"encoding/json"
-	"runtime/debug"
 	"flag"
 	"fmt"
 	"os"
 	"path/filepath"
+	"runtime/debug"
 	"sort"
 	"strconv"
 	"strings"
@@ -69,7 +69,12 @@ func refPkgs() []string {
 
 // loadFor loads the program once for a set of properties.
 func loadFor(props []string, repo string, overlay map[string][]byte, goarch string) (*core.Prog, error) {
-	o := core.LoadOpts{Repo: repo, Overlay: overlay, GOARCH: goarch}
+	o := core.LoadOpts{Repo: repo, Overlay: overlay}
+	if strings.HasPrefix(goarch, "tags:") {
+		o.Tags = strings.TrimPrefix(goarch, "tags:")
+	} else {
+		o.GOARCH = goarch
+	}
 	for _, prop := range props {
 		if _, ok := rules.Registry[prop]; !ok {
 			return nil, fmt.Errorf("no rule set registered for %s", prop)
